@@ -303,8 +303,23 @@ class C10(Check):
             counts = sorted({st for st, _ in out.returns})
             if name == "_adjust_data":
                 # the normaliser itself: applies iff normalise is not None
-                t = " ".join(norm(fn).split())
-                if "if normalise is not None: data = _normalise_split_results(data, normalise=normalise)" in t:
+                from ..interp import Sym as _S, SymInterp as _SI
+
+                ok_adj = True
+                n_paths = 0
+                for st_, _ in _SI().run_function(fn, _S()).returns:
+                    ret_ = next((e_[1] for e_ in reversed(st_.events) if e_[0] == "return"), "")
+                    given = [not v_ for c_, v_ in st_.conds if c_ == "normalise is None"]
+                    if not given:
+                        ok_adj = False
+                        continue
+                    n_paths += 1
+                    k_ = ret_.count("_normalise_split_results(")
+                    if given[0] and not (k_ == 1 and "_normalise_split_results(data, normalise=normalise)" in ret_.replace("results=data", "data")):
+                        ok_adj = False
+                    if not given[0] and k_ != 0:
+                        ok_adj = False
+                if ok_adj and n_paths:
                     self.holds("V6", MOD, q, "normalise-once", fn, "applies the factors once, iff they are given")
                 else:
                     self.violated("V6", MOD, q, "normalise-once", fn, "_adjust_data does not apply the factors exactly once when given")
